@@ -568,7 +568,7 @@ func runC17(c *Ctx) {
 	r := c.R
 	p := c.V1
 	r.Doc("R0", "role resolution", 1)
-	r.Doc("R1", "command channels are unbuffered", 2)
+	r.Doc("R1", "command channels are unbuffered; the API hands the command over with one plain blocking send", 4)
 	r.Doc("R2", "a received command is applied inside its clause before the clause is left", 2)
 	r.Doc("R3", "removal deletes the table entry; input receives look the channel up afresh (same block as the select)", 3)
 	r.Doc("R4", "(= B11) counters of a removed priority are kept until zero", 1)
@@ -587,6 +587,48 @@ func runC17(c *Ctx) {
 	for _, f := range []string{"inputAdds", "inputRmvs"} {
 		capc := p.chanCapacityConst(d, f)
 		r.Check(capc == 0, "R1", pr.key+"#"+f, p.Pos(d.Ctors[0].Pos()), "make(chan, 0)", fmt.Sprintf("command channel %s is made with capacity %d: AddInput/RemoveInput return before the scheduler has seen the command, so the change is not in effect on return", f, capc))
+	}
+	// R1b: the API methods hand the command over with one plain blocking send
+	for _, m := range d.API {
+		role := map[string]string{"AddInput": "field:inputAdds", "RemoveInput": "field:inputRmvs"}[m.Name()]
+		if role == "" {
+			continue
+		}
+		var problems []string
+		sends := 0
+		for _, ss := range p.SendSites(m) {
+			if p.chanRole(ss.Chan) != role {
+				continue
+			}
+			sends++
+			if ss.Case != nil {
+				problems = append(problems, "the command is sent from a select: it can be dropped or the call can return without the scheduler having received it")
+			}
+			// value built from the parameters
+			uses := map[string]bool{}
+			p.Sym(ss.Val).Contains(func(x *Sym) bool {
+				if x.Op == "param" {
+					uses[x.Name] = true
+				}
+				return false
+			})
+			for _, par := range m.Params[1:] {
+				if !uses[par.Name()] {
+					problems = append(problems, "the command does not carry the argument "+par.Name())
+				}
+			}
+		}
+		if sends != 1 {
+			problems = append(problems, fmt.Sprintf("%d sends of the command", sends))
+		}
+		for _, b := range m.Blocks {
+			for _, in := range b.Instrs {
+				if _, isGo := in.(*ssa.Go); isGo {
+					problems = append(problems, "the command is sent from a new goroutine: the call returns before it is in effect")
+				}
+			}
+		}
+		r.Check(len(problems) == 0, "R1", p.FnKey(m), p.Pos(m.Pos()), "one plain blocking send of the command built from the arguments", strings.Join(problems, "; "))
 	}
 	// R2
 	loop := pr.sr.loopFn
